@@ -619,6 +619,29 @@ func (s String) M__contains__(item Object) (Object, error) {
 	return NewBool(strings.Contains(string(s), string(needle))), nil
 }
 
+// adjustIndices clamps a start/end pair given in characters the way
+// Python does for the optional arguments of find, count, startswith
+// and endswith: negative values count from the end, everything is
+// clamped to [0, length] except that start may stay above length
+// (callers treat start > end as "no match")
+func adjustIndices(start, end, length int) (int, int) {
+	if end > length {
+		end = length
+	} else if end < 0 {
+		end += length
+		if end < 0 {
+			end = 0
+		}
+	}
+	if start < 0 {
+		start += length
+		if start < 0 {
+			start = 0
+		}
+	}
+	return start, end
+}
+
 func (s String) Count(args Tuple) (Object, error) {
 	var (
 		pysub Object
@@ -636,18 +659,13 @@ func (s String) Count(args Tuple) (Object, error) {
 		end  = int(pyend.(Int))
 		size = s.len()
 	)
-	if beg > size {
-		beg = size
-	}
-	if end < 0 {
-		end = size
-	}
-	if end > size {
-		end = size
+	beg, end = adjustIndices(beg, end, size)
+	if beg > end {
+		return Int(0), nil
 	}
 
 	var (
-		str = string(s.slice(beg, end, s.len()))
+		str = string(s.slice(beg, end, size))
 		sub = string(pysub.(String))
 	)
 	return Int(strings.Count(str, sub)), nil
@@ -670,26 +688,20 @@ func (s String) find(args Tuple) (Object, error) {
 		end  = int(pyend.(Int))
 		size = s.len()
 	)
-	if beg > size {
-		beg = size
-	}
-	if end < 0 {
-		end = size
-	}
-	if end > size {
-		end = size
+	beg, end = adjustIndices(beg, end, size)
+	if beg > end {
+		return Int(-1), nil
 	}
 
 	var (
-		off = s.slice(0, beg, s.len()).len()
-		str = string(s.slice(beg, end, s.len()))
+		str = string(s.slice(beg, end, size))
 		sub = string(pysub.(String))
 		idx = strings.Index(str, sub)
 	)
 	if idx < 0 {
-		return Int(idx), nil
+		return Int(-1), nil
 	}
-	return Int(off + String(str[:idx]).len()), nil
+	return Int(beg + String(str[:idx]).len()), nil
 }
 
 func (s String) Split(args Tuple, kwargs StringDict) (Object, error) {
